@@ -33,11 +33,23 @@ var (
 	}
 )
 
+// newDefaultOptions returns a new options set loaded with the default values
+func newDefaultOptions() *Options {
+	return &Options{
+		RenderOptions: &native.RenderOptions{
+			Indent: defaultOptions.RenderOptions.Indent,
+		},
+		SerializeOptions: &native.SerializeOptions{},
+		StoreOptions:     &storage.StoreOptions{},
+		formatOptions:    map[string]interface{}{},
+	}
+}
+
 func New(opts ...WriterOption) *Writer {
 	ensureSerializersInitialized()
 	w := &Writer{
 		Storage: fstore.NewFileSystem(),
-		Options: defaultOptions,
+		Options: newDefaultOptions(),
 	}
 
 	for _, opt := range opts {
